@@ -20,7 +20,8 @@ LEVEL = "exploration"
 RULE = ("scenario = proxy options {http_proxy_host/port, http_proxy_auth, http_no_proxy} x environment {http_proxy, "
         "HTTP_PROXY, https_proxy, HTTPS_PROXY, no_proxy, NO_PROXY} x scheme x target host (all dotted names of <=3 labels "
         "over {a, b, ab}, IPv4 literals) x exemption list (hosts, leading-dot domains, '*', canonical CIDR blocks of "
-        "every prefix length 0..32 that do / do not contain the address) x proxy reply status.  Oracle = independent "
+        "every prefix length 0..32 that do / do not contain the address) x proxy reply status x proxy URL with / without a "
+        "port x target port x optional redirect to another (scheme, host), each hop taking its own decision.  Oracle = independent "
         "decision function written from the property sentence, compared with the address the simulated network saw "
         "dialled and with what the proxy peer received.  Enumerated completely: every (leading-dot domain, host) pair "
         "over the 39 names (each domain also without its dot); every prefix length 0..32 containing / not containing; "
@@ -87,6 +88,8 @@ def plan(tier, seed):
              for i in range(0, len(NAMES), 5)]
     items.append({"kind": "cidr", "exhaustive": "every IPv4 prefix length 0..32, containing and not containing, option and environment"})
     items.append({"kind": "status", "exhaustive": "every proxy reply status x scheme x auth"})
+    items.append({"kind": "portless", "exhaustive": "every proxy environment variable x proxy URL with / without port x target port"})
+    items.append({"kind": "redirects", "exhaustive": "redirect from (scheme, host) to (scheme, host) x proxy by option / environment x exemption of either host"})
     n = 6000 if tier == "quick" else 120000
     per = 250 if tier == "quick" else 2500
     for s in range(0, n, per):
@@ -121,6 +124,24 @@ def expand(item, seed):
                     yield _base(host=ip, opt_proxy=False, scheme="wss" if p % 2 else "ws",
                                 env={("https_proxy" if p % 2 else "http_proxy"): f"http://{PROXY_HOST}:{PROXY_PORT}",
                                      "NO_PROXY" if p % 4 == 0 else "no_proxy": "localhost, " + c})
+    elif k == "portless":
+        for scheme in ("ws", "wss"):
+            for var in ("http_proxy", "HTTP_PROXY", "https_proxy", "HTTPS_PROXY"):
+                for url in (f"http://{PROXY_HOST}", f"http://{PROXY_HOST}/", f"http://eu:ep%40ss@{PROXY_HOST}", f"http://{PROXY_HOST}:{PROXY_PORT}"):
+                    for tp in (None, 8080, 8443):
+                        yield _base(scheme=scheme, opt_proxy=False, env={var: url}, target_port=tp)
+    elif k == "redirects":
+        urls = (f"http://{PROXY_HOST}:{PROXY_PORT}", f"http://{PROXY_HOST}")
+        for s1 in ("ws", "wss"):
+            for s2 in ("ws", "wss"):
+                for h1, h2 in (("a.b", "b.a"), ("a.b", "ab.b"), ("b.a", "a.b"), ("a", "a.b")):
+                    for opt in (True, False):
+                        for env in ({}, {"http_proxy": urls[0]}, {"https_proxy": urls[0]}, {"http_proxy": urls[0], "https_proxy": urls[1]}):
+                            for np in (None, [h1], [h2], ["." + h2], ["." + h1.split(".")[-1]]):
+                                yield _base(scheme=s1, host=h1, opt_proxy=opt, env=dict(env), opt_no_proxy=np, redirect={"scheme": s2, "host": h2})
+                            if env:
+                                yield _base(scheme=s1, host=h1, opt_proxy=opt, env=dict(env, no_proxy=h1), redirect={"scheme": s2, "host": h2})
+                                yield _base(scheme=s1, host=h1, opt_proxy=opt, env=dict(env, NO_PROXY="." + h2), redirect={"scheme": s2, "host": h2})
     elif k == "status":
         for st in STATUSES:
             for scheme in ("ws", "wss"):
@@ -143,7 +164,7 @@ def gen(rng):
         if rng.random() < 0.45:
             v = var if rng.random() < 0.6 else var.upper()
             auth = rng.choice(("", "", "eu:ep%40ss@"))
-            env[v] = f"http://{auth}{PROXY_HOST}:{PROXY_PORT}"
+            env[v] = f"http://{auth}{PROXY_HOST}:{PROXY_PORT}" if rng.random() < 0.8 else f"http://{auth}{PROXY_HOST}" + rng.choice(("", "/"))
             if rng.random() < 0.15:
                 env[var.upper() if v == var else var] = env[v]
     entries = []
@@ -171,6 +192,12 @@ def gen(rng):
         else:
             env[rng.choice(("no_proxy", "NO_PROXY"))] = rng.choice((",", ", ")).join(entries)
     sc["env"] = env
+    if rng.random() < 0.1 and not _is_ip(host):
+        h2 = rng.choice([n for n in NAMES if n != host])
+        sc["redirect"] = {"scheme": rng.choice(("ws", "wss")), "host": h2}
+        sc["status"] = 200
+    elif rng.random() < 0.1:
+        sc["target_port"] = rng.choice((8080, 8443, 81))
     return sc
 
 
@@ -199,8 +226,14 @@ def run(sc, choices=None):
                 raise InvalidScenario("no_proxy entry")
     except (KeyError, TypeError, ValueError) as e:
         raise InvalidScenario(str(e))
+    if sc.get("redirect"):
+        return run_redirect(sc, env, opt_np, auth)
     tls = scheme == "wss"
     port = 443 if tls else 80
+    if sc.get("target_port") is not None:
+        port = int(sc["target_port"])
+        if not 1 <= port <= 65535:
+            raise InvalidScenario("target_port")
     w = World(seed=int(sc.get("seed", 1)), step_cap=500_000, env=env)
     origin_peers, proxy_peers, tls_peers = [], [], []
 
@@ -225,6 +258,7 @@ def run(sc, choices=None):
     w.net.listen(origin_addr, port, origin)
     w.net.add_host(PROXY_HOST, [(_rs.AF_INET, PROXY_ADDR)])
     w.net.listen(PROXY_ADDR, PROXY_PORT, proxy)
+    w.net.listen(PROXY_ADDR, 80, proxy)  # where a proxy URL without a port points
     outcome = None
     with w:
         ws = w.ws
@@ -243,7 +277,7 @@ def run(sc, choices=None):
             import ssl
             kw["sslopt"] = {"cert_reqs": ssl.CERT_NONE, "check_hostname": False}
         try:
-            c = ws.create_connection(f"{scheme}://{host}/res?x=1", timeout=3, **kw)
+            c = ws.create_connection(f"{scheme}://{host}{':%d' % port if sc.get('target_port') is not None else ''}/res?x=1", timeout=3, **kw)
             outcome = ("ok",)
             c.close(timeout=1)
         except SimAbort:
@@ -271,7 +305,9 @@ def run(sc, choices=None):
     else:
         src, want_auth = None, None
     want_proxy = src is not None and not ex
+    want_pport = PROXY_PORT if src == "option" or (envp and envp.rstrip("/").endswith(f":{PROXY_PORT}")) else 80
     dialled = [s.connect_attempts[0][0] for s in w.net.sockets if s.connect_attempts]
+    dialled_ports = [s.connect_attempts[0][1] for s in w.net.sockets if s.connect_attempts]
     via_proxy = bool(dialled) and dialled[0] == PROXY_ADDR
     rel = _relation(host, entries)
     ctx = f"{rel}"
@@ -283,6 +319,9 @@ def run(sc, choices=None):
             clause = "wrongly_exempted"
         res.violate(clause, ctx, f"{scheme}://{host} proxy source={src} no_proxy({np_src})={entries}: dialled {dialled}, "
                     f"expected {'proxy' if want_proxy else 'origin'} first")
+    elif via_proxy and dialled_ports[0] != want_pport:
+        res.violate("proxy_dialled_on_wrong_port", "portless_proxy_url" if want_pport == 80 else "proxy_port",
+                    f"{scheme}://{host} proxy {envp or (PROXY_HOST, PROXY_PORT)}: dialled port {dialled_ports[0]}, expected {want_pport}")
     elif via_proxy:
         pp = proxy_peers[0] if proxy_peers else None
         if pp is None or pp.request is None:
@@ -320,7 +359,7 @@ def run(sc, choices=None):
                     op = origin_peers[-1] if origin_peers else None
                     if op is None or op.request is None:
                         res.violate("no_handshake_inside_tunnel", "tunnel", "origin saw no request")
-                    elif op.request["target"] != "/res?x=1" or R.header_values(op.request, "Host") != [host]:
+                    elif op.request["target"] != "/res?x=1" or R.header_values(op.request, "Host") != [host if sc.get("target_port") is None else f"{host}:{port}"]:
                         res.violate("tunnel_handshake_not_addressed_to_origin", "tunnel",
                                     f"target {op.request['target']} Host {R.header_values(op.request, 'Host')}")
     else:
@@ -334,6 +373,128 @@ def run(sc, choices=None):
         res.probes["via_proxy"] = 1
     if ex:
         res.probes["exempt_" + rel] = 1
+    return res
+
+
+def _decide(scheme, host, sc, env, opt_np):
+    """-> (goes through the proxy?, proxy port, source) for one hop, from the property sentence."""
+    entries = opt_np if opt_np else None
+    if not entries:
+        v = env.get("no_proxy", env.get("NO_PROXY", ""))
+        entries = [x.strip() for x in v.split(",") if x.strip()] or None
+    ex = exempt(host, entries)
+    var = "https_proxy" if scheme == "wss" else "http_proxy"
+    envp = env.get(var, env.get(var.upper()))
+    if sc.get("opt_proxy"):
+        src, pport = "option", PROXY_PORT
+    elif envp:
+        src, pport = "env", (PROXY_PORT if envp.rstrip("/").endswith(f":{PROXY_PORT}") else 80)
+    else:
+        src, pport = None, None
+    return (src is not None and not ex), pport, src
+
+
+def run_redirect(sc, env, opt_np, auth):
+    """The first server answers with a redirect to another (scheme, host): every hop takes its own proxy decision."""
+    res = Result()
+    try:
+        hops = [(sc["scheme"], sc["host"]), (sc["redirect"]["scheme"], sc["redirect"]["host"])]
+        for s_, h_ in hops:
+            if s_ not in ("ws", "wss") or h_ not in NAMES:
+                raise InvalidScenario("redirect hop")
+        if hops[0][1] == hops[1][1]:
+            raise InvalidScenario("redirect to the same host")
+    except (KeyError, TypeError) as e:
+        raise InvalidScenario(str(e))
+    w = World(seed=int(sc.get("seed", 1)), step_cap=600_000, env=env)
+    made = []  # (hop index, peer)
+    proxy_peers = []
+
+    def origin_for(i):
+        def origin(conn=None, target=None):
+            s_, h_ = hops[i]
+            if i == 0:
+                p = WSPeer(w, {"response": {"mode": "custom", "status": 302, "reason": "Found", "then": "eof",
+                                            "headers": [["Location", f"{hops[1][0]}://{hops[1][1]}/res2"]]}})
+            else:
+                p = WSPeer(w, {})
+            made.append((i, p))
+            if s_ == "wss":
+                from ..tls import TLSPeer
+                return TLSPeer(w, p, "good")
+            return p
+        return origin
+
+    def proxy(conn):
+        def inner(c, target):
+            hostport = target or ""
+            i = 0 if hostport.split(":")[0] == hops[0][1] else 1
+            return origin_for(i)(c, target)
+        pp = ProxyPeer(w, {"status": 200}, inner)
+        proxy_peers.append(pp)
+        return pp
+
+    for i, (s_, h_) in enumerate(hops):
+        ad = f"10.9.0.{i + 1}"
+        w.net.add_host(h_, [(_rs.AF_INET, ad)])
+        w.net.listen(ad, 443 if s_ == "wss" else 80, origin_for(i))
+    w.net.add_host(PROXY_HOST, [(_rs.AF_INET, PROXY_ADDR)])
+    w.net.listen(PROXY_ADDR, PROXY_PORT, proxy)
+    w.net.listen(PROXY_ADDR, 80, proxy)
+    with w:
+        ws = w.ws
+        from .. import tls as simtls
+        if any(s_ == "wss" for s_, _ in hops):
+            simtls.install()
+        kw = {}
+        if sc.get("opt_proxy"):
+            kw["http_proxy_host"], kw["http_proxy_port"] = PROXY_HOST, PROXY_PORT
+            if auth:
+                kw["http_proxy_auth"] = tuple(auth)
+        if opt_np is not None:
+            kw["http_no_proxy"] = list(opt_np)
+        import ssl
+        kw["sslopt"] = {"cert_reqs": ssl.CERT_NONE, "check_hostname": False}
+        try:
+            c = ws.create_connection(f"{hops[0][0]}://{hops[0][1]}/res?x=1", timeout=3, **kw)
+            outcome = ("ok",)
+            c.close(timeout=1)
+        except SimAbort:
+            outcome = ("abort", w.k.abort_reason)
+        except BaseException as e:  # noqa
+            outcome = ("exc", exc_name(e), str(e)[:160])
+    res.absorb(w, exclude_kinds=("send", "recv", "deliver", "recv_call"))
+    dialled = [s.connect_attempts[0] for s in w.net.sockets if s.connect_attempts]
+    sig = []
+    if outcome[0] != "ok":
+        res.violate("connect_hangs" if outcome[0] == "abort" else "direct_connect_failed", "redirect", f"{hops}: outcome {outcome}; dialled {dialled}")
+    elif len(dialled) != 2:
+        res.violate("direct_connect_failed", "redirect", f"{hops}: {len(dialled)} connections for two hops: {dialled}")
+    else:
+        ci = 0
+        for i, (s_, h_) in enumerate(hops):
+            want, pport, src = _decide(s_, h_, sc, env, opt_np)
+            got_proxy = dialled[i][0] == PROXY_ADDR
+            sig.append((s_, src, want))
+            hop = "first_hop" if i == 0 else "redirected_hop"
+            if want != got_proxy:
+                res.violate("proxy_bypassed" if want else "proxy_used_although_exempt_or_unconfigured", hop,
+                            f"hop {i} {s_}://{h_}: dialled {dialled[i]}, expected {'the proxy' if want else 'the origin'}; proxy by "
+                            f"{'option' if sc.get('opt_proxy') else env}; no_proxy {opt_np or env.get('no_proxy') or env.get('NO_PROXY')}")
+                break
+            if want:
+                if dialled[i][1] != pport:
+                    res.violate("proxy_dialled_on_wrong_port", hop, f"hop {i} {s_}://{h_}: dialled {dialled[i]}, expected proxy port {pport}")
+                    break
+                pp = proxy_peers[ci] if ci < len(proxy_peers) else None
+                ci += 1
+                hp = f"{h_}:{443 if s_ == 'wss' else 80}"
+                if pp is None or pp.request is None or pp.request["method"] != "CONNECT" or pp.request["target"] != hp:
+                    res.violate("bad_connect_request", hop, f"hop {i}: CONNECT {None if pp is None or pp.request is None else pp.request['target']}, expected {hp}")
+                    break
+    res.sig = repr(("redirect", tuple(sig), bool(opt_np), sorted(env)))
+    res.nontrivial = bool(sc.get("opt_proxy") or env)
+    res.probes["redirected_hop"] = 1
     return res
 
 
@@ -369,4 +530,4 @@ def _relation(host, entries):
 
 
 def sample_view(sc, r):
-    return {k: sc.get(k) for k in ("scheme", "host", "opt_proxy", "opt_auth", "opt_no_proxy", "env", "status")}
+    return {k: sc.get(k) for k in ("scheme", "host", "opt_proxy", "opt_auth", "opt_no_proxy", "env", "status", "target_port", "redirect")}
